@@ -137,6 +137,26 @@ def cmd_check(a):
                 st.append({"sample": s, "error": traceback.format_exc()[-3000:], "equal": False})
             finally:
                 env.OBS_ON = False; del env.OBS[:]
+        # history self-test: sample 0, the other samples, sample 0 again — still untraced; the first and the last observation of
+        # sample 0 must be identical (process-wide state left behind by other inputs must not change an answer)
+        if len(o.samples) >= 2 and all(x.get("equal") for x in st):
+            try:
+                env.OBS_ON = True; del env.OBS[:]
+                ra = o.fn(**dict(o.samples[0])); oa = _norm(repr(env.OBS)); del env.OBS[:]
+                for other in o.samples[1:3]:
+                    o.fn(**dict(other))
+                del env.OBS[:]
+                rb = o.fn(**dict(o.samples[0])); ob_ = _norm(repr(env.OBS)); del env.OBS[:]
+                if bool(ra) != bool(rb) or oa != ob_:
+                    out["state"] = "REPEAT_DIFF"; out["args"] = o.samples[0]
+                    out["sequence"] = [o.samples[0]] + list(o.samples[1:3]) + [o.samples[0]]
+                    out["detail"] = "sample 0 before / after the other samples: %s | %s" % (oa[:1500], ob_[:1500])
+                    out["selftest"] = st
+                    _emit(out); return
+            except Exception:
+                pass
+            finally:
+                env.OBS_ON = False; del env.OBS[:]
         out["selftest"] = st
         out["functions_encoded"] = funcs
         if any(not x["equal"] for x in st):
@@ -229,8 +249,12 @@ def cmd_replay(a):
     env.EXPLAIN = True
     if rp.get("repeat"):
         try:
-            r1 = o.fn(**rp["args"]); o1 = _norm(repr(env.OBS)); del env.OBS[:]
-            r2 = o.fn(**rp["args"]); o2 = _norm(repr(env.OBS))
+            seq = rp.get("sequence") or [rp["args"], rp["args"]]
+            r1 = o.fn(**seq[0]); o1 = _norm(repr(env.OBS)); del env.OBS[:]
+            for mid in seq[1:-1]:
+                o.fn(**mid)
+            del env.OBS[:]
+            r2 = o.fn(**seq[-1]); o2 = _norm(repr(env.OBS))
         except Exception:
             traceback.print_exc(); print("REPLAY: obligation raised (harness error)"); sys.exit(2)
         if bool(r1) != bool(r2) or o1 != o2:
